@@ -41,6 +41,8 @@ func init() {
 			{Name: "gonumber", Run: runGoNumber},
 			{Name: "utf16store", Run: runUTF16Store},
 			{Name: "sliceref", Run: brig.RunSliceRef},
+			{Name: "restore", Run: brig.RunReentrantStore},
+			{Name: "earlyexit", Run: brig.RunEarlyExit},
 			{Name: "mapkeys", Run: brig.RunMapKeys},
 			{Name: "kindtwins", Run: func(r *engine.Run) { brig.RunKindTwins(r, false) }},
 		},
